@@ -39,7 +39,7 @@ MUTANTS += [
     ('chain_drops_rng', T, "        transition_function(state, action, rng=rng)", "        transition_function(state, action)", ['C02']),
     ('from_visibility_drops_rng', G + 'envs/observation_functions.py', "        observation_grid, pov_agent_position, rng=rng\n", "        observation_grid, pov_agent_position\n", ['C02']),
     ('set_seed_ignores_seed', G + 'envs/gridworld.py', "        self._rng = make_rng(seed)", "        self._rng = make_rng()", ['C02']),
-    ('stochastic_raytracing_global_numpy', G + 'envs/visibility_functions.py', "    visibility = rng.random(probs.shape) <= probs", "    visibility = np.random.random(probs.shape) <= probs", ['C02']),
+    ('stochastic_raytracing_global_numpy', G + 'envs/visibility_functions.py', "    visibility = rng.random(probs.shape) < probs", "    visibility = np.random.random(probs.shape) < probs", ['C02']),
     ('debug_branch_consumes_rng', G + 'envs/gridworld.py', "        if gv_debug() and not self.state_space.contains(next_state):", "        if gv_debug() and self._rng is not None and self._rng.random() < 2 and not self.state_space.contains(next_state):", ['C02']),
     # ---- C03
     ('transition_with_copy_shallow', T, "    next_state = fast_copy(state)\n", "    next_state = type(state)(state.grid, fast_copy(state.agent))\n", ['C03']),
@@ -63,7 +63,7 @@ MUTANTS += [
     ('functional_observation_memo_by_identity', G + 'envs/gridworld.py', "        observation = self._observation_function(state, rng=self._rng)\n",
      "        memo = getattr(self, '_obs_memo', None)\n        if memo is not None and memo[0] is state:\n            return memo[1]\n        observation = self._observation_function(state, rng=self._rng)\n        self._obs_memo = (state, observation)\n", ['C05']),
     ('shortest_path_distance_memo_by_identity', R, "    distance_prev = _distance_agent_object(state)\n    distance_next = _distance_agent_object(next_state)",
-     "    memo = getting_closer_shortest_path.__dict__.setdefault('_memo', {})\n    distance_prev = _distance_agent_object(state)\n    if memo.get('obj') is next_state:\n        distance_next = memo['d']\n    else:\n        distance_next = _distance_agent_object(next_state)\n        memo['obj'], memo['d'] = next_state, distance_next", ['C12']),
+     "    memo = getting_closer_shortest_path.__dict__.setdefault('_memo', {})\n    distance_prev = _distance_agent_object(state)\n    if memo.get('obj') is next_state:\n        distance_next = memo['d']\n    else:\n        distance_next = _distance_agent_object(next_state)\n        memo['obj'], memo['d'] = next_state, distance_next", ['C12'], 2),
     ('functional_step_snapshot_by_identity', G + 'envs/gridworld.py', "        next_state = transition_with_copy(\n            self._transition_function,\n            state,\n            action,\n            rng=self._rng,\n        )",
      "        import pickle\n        snap = getattr(self, '_snap', None)\n        if snap is None or snap[0] is not state:\n            snap = self._snap = (state, pickle.dumps(state))\n        next_state = pickle.loads(snap[1])\n        self._transition_function(next_state, action, rng=self._rng)", ['C08', 'C09', 'C10', 'C11']),
     # ---- C09
